@@ -1,14 +1,18 @@
 //! `amh`: drives the real `assets_manager` crate (built from /repo's working tree with
 //! `--cfg assets_manager_verif`) and writes what it observed as Coq case files, which the
 //! orchestrator evaluates against the reference model with `coqc`.
+mod answers;
 mod ridiff;
 mod util;
+mod world;
 
 fn main() {
     let a = util::Args::parse();
     std::fs::create_dir_all(&a.out).unwrap();
     match a.engine.as_str() {
         "ridiff" => ridiff::run(&a),
+        "answers" => answers::run(&a),
+        "answers-child" => std::process::exit(answers::child(&a)),
         other => {
             eprintln!("unknown engine {other}");
             std::process::exit(2);
